@@ -71,12 +71,12 @@ def utils_jobs(config='le', fallback=False):
                     enforce='Avtp_GetField', loop_contracts=lc_get, owners=ow_get, function='Avtp_GetField',
                     kind='utils', config=config, timeout=900, solver='kissat'))
     jobs.append(Job('Avtp_SetField/K_set', H_UTILS % {'pre': '__CPROVER_assume(active);', 'call': 'Avtp_SetField(table, numFields, pdu, field, value);', 'canaries': CAN_A}, src,
-                    enforce='Avtp_SetField', loop_contracts=lc_set, owners=ow_set, function='Avtp_SetField',
+                    enforce='Avtp_SetField', replace=['Avtp_GetField'], loop_contracts=lc_set, owners=ow_set, function='Avtp_SetField',
                     kind='utils', config=config, timeout=1500, solver='kissat'))
     # inactive writer: the loop is unreachable under this contract; its loop contract is still
     # supplied so that no loop is left without one.
     jobs.append(Job('Avtp_SetField/K_set_inactive', H_UTILS % {'pre': '__CPROVER_assume(!active);', 'call': 'Avtp_SetField(table, numFields, pdu, field, value);', 'canaries': CAN_I}, src,
-                    enforce='Avtp_SetField/vp_K_set_inactive', loop_contracts=lc_set, owners=ow_ina, function='Avtp_SetField',
+                    enforce='Avtp_SetField/vp_K_set_inactive', replace=['Avtp_GetField'], loop_contracts=lc_set, owners=ow_ina, function='Avtp_SetField',
                     kind='utils', config=config, timeout=600))
     return jobs
 
